@@ -1,6 +1,6 @@
 (** Non-vacuity for C11_frag: programs of the fragment, by computation. *)
 From Coq Require Import NArith List.
-From FF Require Import Aml.Grammar Aml.WfProgram Aml.ParserFragF0Final Aml.ParserFragF1Final Aml.ParserFragF3Final Aml.ParserFragF4Final Aml.ParserFragF5Final Aml.ParserFragF6Final Aml.ParserFragF7Final Aml.ParserFragT2Final Aml.ParserFragT2F7Final Aml.ParserFragTNTop Aml.ParserFragTNFinal Props.C11_frag.
+From FF Require Import Aml.Grammar Aml.WfProgram Aml.ParserFragF0Final Aml.ParserFragF1Final Aml.ParserFragF3Final Aml.ParserFragF4Final Aml.ParserFragF5Final Aml.ParserFragF6Final Aml.ParserFragF7Final Aml.ParserFragT2Final Aml.ParserFragT2F7Final Aml.ParserFragTNTop Aml.ParserFragTNFinal Aml.ParserFragF8Final Aml.ParserFragTN8Final Props.C11_frag.
 Import ListNotations.
 Local Open Scope N_scope.
 
@@ -351,4 +351,55 @@ Example C11_fragment_TN_excludes :
   in_fragment_TN [[]; [AScope 1 (mkName true 0 false [seg4 0x5f 0x53 0x42 0x5f]) []]; []] = false /\
   in_fragment_TN [[]; [AName (f0_nm 0x42 0x55 0x46 0x30) (ABuffer 1 (AConst OP_BYTE 2) [1; 2])]] = false /\
   in_fragment_TN [[AName (f0_nm 0x50 0x4b 0x47 0x30) (APackage 1 1 [APackage 1 0 []])]; []] = false.
+Proof. vm_compute. repeat split. Qed.
+
+(** ---- F8: nested packages (a _PSS-like table, an empty inner package, depth three, inside Scope / Device) ---- *)
+Definition f8_program : list (list ast) :=
+  [[AName (f0_nm 0x5f 0x50 0x53 0x53)
+      (APackage 1 2 [APackage 1 2 [AConst OP_BYTE 1; AConst OP_WORD 0x1234]; APackage 1 3 [AStr [0x41]; APackage 1 0 []; AConst 0xff 0]]);
+    AScope 1 (mkName true 0 false [seg4 0x5f 0x53 0x42 0x5f])
+      [ADevice 1 (f0_nm 0x44 0x45 0x56 0x30) [AName (f0_nm 0x5f 0x50 0x52 0x54) (APackage 1 1 [APackage 1 1 [APackage 1 1 [AConst 0 0]]])]];
+    AName (f0_nm 0x5a 0x5a 0x5a 0x5a) (AConst 0x01 0)]].
+
+Example C11_parse_encode_partial_F8_nonvacuous :
+  wf_program f8_program = true /\ in_fragment_F8 f8_program = true /\ in_fragment_F7 f8_program = false /\
+  in_fragment_F8 f7_program = true /\ in_fragment_F8 f6_program = true /\ in_fragment_F8 f0_program = true.
+Proof. vm_compute. repeat split. Qed.
+
+Example C11_parse_encode_partial_F8_instance : parse_encode_statement f8_program.
+Proof. apply C11_parse_encode_partial_F8; vm_compute; reflexivity. Qed.
+
+Example C11_parse_encode_partial_F8_run : parse_program f8_program = (0, ns f8_program) /\ length (ns f8_program) = 4%nat.
+Proof. vm_compute. split; reflexivity. Qed.
+
+(** outside F8: a name as element of an inner package, a Buffer as element, two tables *)
+Example C11_fragment_F8_excludes :
+  in_fragment_F8 [[AName (f0_nm 0x50 0x4b 0x47 0x30) (APackage 1 1 [APackage 1 1 [ARef (f0_nm 0x41 0x42 0x43 0x44)]])]] = false /\
+  in_fragment_F8 [[AName (f0_nm 0x50 0x4b 0x47 0x30) (APackage 1 1 [ABuffer 1 (AConst OP_BYTE 2) [1; 2]])]] = false /\
+  in_fragment_F8 [[]; []] = false.
+Proof. vm_compute. repeat split. Qed.
+
+(** ---- TN8: three tables with nested packages ---- *)
+Definition tn8_program : list (list ast) :=
+  [[AName (f0_nm 0x5f 0x50 0x53 0x53) (APackage 1 1 [APackage 1 2 [AConst OP_BYTE 1; AStr [0x42]]])];
+   [];
+   [AScope 1 (mkName true 0 false [seg4 0x5f 0x53 0x42 0x5f])
+      [AName (f0_nm 0x50 0x4b 0x47 0x32) (APackage 1 2 [APackage 1 0 []; APackage 1 1 [APackage 1 0 []]])]]].
+
+Example C11_parse_encode_partial_TN8_nonvacuous :
+  wf_program tn8_program = true /\ in_fragment_TN8 tn8_program = true /\ in_fragment_TN tn8_program = false /\
+  in_fragment_F8 tn8_program = false /\ in_fragment_TN8 tn_program = true /\ in_fragment_TN8 f8_program = true /\ in_fragment_TN8 t2f7_program = true.
+Proof. vm_compute. repeat split. Qed.
+
+Example C11_parse_encode_partial_TN8_instance : parse_encode_statement tn8_program.
+Proof. apply C11_parse_encode_partial_TN8; vm_compute; reflexivity. Qed.
+
+Example C11_parse_encode_partial_TN8_run : parse_program tn8_program = (0, ns tn8_program) /\ length (ns tn8_program) = 2%nat.
+Proof. vm_compute. split; reflexivity. Qed.
+
+(** outside TN8: no table, a Scope directive before the last table, a name as package element *)
+Example C11_fragment_TN8_excludes :
+  in_fragment_TN8 [] = false /\
+  in_fragment_TN8 [[AScope 1 (mkName true 0 false [seg4 0x5f 0x53 0x42 0x5f]) []]; []] = false /\
+  in_fragment_TN8 [[]; [AName (f0_nm 0x50 0x4b 0x47 0x30) (APackage 1 1 [APackage 1 1 [ARef (f0_nm 0x41 0x42 0x43 0x44)]])]] = false.
 Proof. vm_compute. repeat split. Qed.
